@@ -45,7 +45,14 @@ def apply_real(c, op, params=None, cast=None):
         c.mode_swaps({f_(a): f_(b) for a, b in op[1]})
     elif k == "unitary":
         _, m, kind, kk, seed = op
-        c.add(lw.Unitary(make_unitary(kind, kk, seed)), m)
+        U = make_unitary(kind, kk, seed)
+        # with or without a label, mode given or defaulted (a function of the op); the documented argument type is
+        # numpy.ndarray - nested lists are not accepted by lw.Unitary and are not generated
+        u = lw.Unitary(U, label=f"U{seed % 7}") if seed % 2 else lw.Unitary(U)
+        if m == 0 and seed % 5 == 0:
+            c.add(u)                                   # mode defaulted
+        else:
+            c.add(u, m)
     elif k == "herald":
         if op[3] is None:
             c.herald(op[1], op[2])
